@@ -3,6 +3,7 @@
 
 #include <cstring>
 #include <list>
+#include <locale>
 #include <algorithm>
 
 #include <asam_cmp/analog_payload.h>
@@ -19,6 +20,12 @@
 #include <asam_cmp/tecmp_decoder.h>
 
 #include "wire.h"
+#include "content.h"
+
+namespace sim
+{
+uint64_t edgeCount();  // edgecount.cpp: basic-block edges of library code executed so far (asan variant; 0 elsewhere)
+}
 
 using namespace ASAM::CMP;
 
@@ -239,6 +246,13 @@ Obs observePacket(const Packet& p, bool typedViews)
     o.ifid = p.getInterfaceId();
     o.vendor = p.getVendorId();
     o.flags = p.getCommonFlags();
+    {
+        using CF = MessageHeader::CommonFlags;
+        static const CF masks[] = {CF::recalc, CF::insync, CF::seg, CF::diOnIf, CF::overflow, CF::errorInPayload};
+        for (int i = 0; i < 6; ++i)
+            if (p.getCommonFlag(masks[i]))
+                o.flagQuery |= static_cast<uint8_t>(1u << i);
+    }
     o.segType = static_cast<uint8_t>(p.getSegmentType());
     o.plen = p.getPayloadLength();
     o.valid = p.isValid();
@@ -259,6 +273,18 @@ Obs observePacket(const Packet& p, bool typedViews)
     (void) pl.isValid();
     (void) pl.getMessageType();
     (void) pl.getRawPayloadType();
+    {
+        // the raw header images, serialised into FRESH heap memory that nobody cleared: every byte of the image must
+        // come from the packet (C20; under valgrind fresh means undefined, in the fill differential it is pattern-filled)
+        uint8_t* h1 = new uint8_t[sizeof(CmpHeader)];
+        uint8_t* h2 = new uint8_t[sizeof(MessageHeader)];
+        p.getRawCmpHeader(h1);
+        p.getRawMessageHeader(h2);
+        o.rawCmpHeader.assign(h1, h1 + sizeof(CmpHeader));
+        o.rawMsgHeader.assign(h2, h2 + sizeof(MessageHeader));
+        delete[] h1;
+        delete[] h2;
+    }
     if (typedViews && o.valid)
         observeTyped(pl, o.typeCode, o.typed, o.viewErr);
     return o;
@@ -296,6 +322,8 @@ static uint64_t digestObs(const Obs& o)
     h = fnvv(o.segType, h);
     h = fnvv(o.plen, h);
     h = fnv(o.payload.data(), o.payload.size(), h);
+    h = fnv(o.rawCmpHeader.data(), o.rawCmpHeader.size(), h);
+    h = fnv(o.rawMsgHeader.data(), o.rawMsgHeader.size(), h);
     const Typed& t = o.typed;
     h = fnvv(t.cls, h);
     h = fnvv(t.flags, h);
@@ -328,9 +356,124 @@ uint64_t digest(const PacketRef& p)
 }
 
 // ------------------------------------------------------------------ encoder
-struct Enc::Impl
+
+// ------------------------------------------------------------------ object lifecycle events
+template <typename T>
+struct Holder
 {
-    Encoder enc;
+    T obj;
+    std::unique_ptr<T> shadow;  // lifecycle 9: a copy kept alive that is given the same calls
+    Holder() = default;
+    explicit Holder(const T& o)
+        : obj(o)
+    {
+    }
+    explicit Holder(T&& o)
+        : obj(std::move(o))
+    {
+    }
+};
+
+// Replace the object inside *slot by one that went through a copy / move / assignment / swap. T is an aggregate
+// Impl holding the library object by value in member "obj". warm(T&) gives a scratch object some state of its own.
+//  1 copy-construct, old destroyed          2 move-construct, old destroyed
+//  3 copy-assign over a used object         4 move-assign over a used object
+//  5 swap with a used object                6 self-assignment
+//  7 copy, use and destroy the copy, keep the original (a copy must share nothing)
+//  8 round trip through a temporary: tmp = obj; obj = used; obj = tmp
+//  9 fork: a copy is kept alive as a shadow that receives every later call too (both must behave alike, neither may
+//    disturb the other); the next event of kind 1-5 ends it
+template <typename ImplT, typename Warm>
+static void lifecycleEvent(ImplT*& d, int how, Warm warm)
+{
+    ImplT* n = nullptr;
+    switch (how)
+    {
+        case 1:
+            n = new ImplT(d->obj);
+            break;
+        case 2:
+            n = new ImplT(std::move(d->obj));
+            break;
+        case 3:
+            n = new ImplT;
+            warm(n->obj);
+            n->obj = d->obj;
+            break;
+        case 4:
+            n = new ImplT;
+            warm(n->obj);
+            n->obj = std::move(d->obj);
+            break;
+        case 5:
+        {
+            n = new ImplT;
+            warm(n->obj);
+            using std::swap;
+            swap(n->obj, d->obj);
+            break;
+        }
+        case 6:
+        {
+            auto& a = d->obj;
+            auto* volatile pb = &d->obj;
+            a = *pb;
+            break;
+        }
+        case 7:
+        {
+            ImplT* c = new ImplT(d->obj);
+            warm(c->obj);
+            delete c;
+            break;
+        }
+        case 8:
+        {
+            ImplT* tmp = new ImplT;
+            tmp->obj = d->obj;
+            ImplT* used = new ImplT;
+            warm(used->obj);
+            d->obj = used->obj;
+            d->obj = tmp->obj;
+            delete used;
+            delete tmp;
+            break;
+        }
+        case 9:
+            // fork: the copy lives on next to the original and is given the same calls from now on
+            d->shadow = std::make_unique<std::remove_reference_t<decltype(d->obj)>>(d->obj);
+            break;
+        default:
+            break;
+    }
+    if (n)
+    {
+        delete d;
+        d = n;
+    }
+}
+
+static Packet warmPacket(uint8_t mtype, uint8_t ptype, size_t len)
+{
+    Bytes b(len, 0x5A);
+    Packet pk;
+    pk.setPayload(Payload(PayloadType(static_cast<CmpHeader::MessageType>(mtype), ptype), b.data(), b.size()));
+    pk.setTimestamp(0x1122334455667788ULL);
+    pk.setInterfaceId(0xCAFE);
+    pk.setVendorId(0xBEEF);
+    return pk;
+}
+
+struct Enc::Impl : Holder<Encoder>
+{
+    using Holder<Encoder>::Holder;
+    // long-lived packet objects that are assigned over and encoded again (a Packet is a value: what it held before,
+    // and that it was encoded before, must not show)
+    std::vector<std::shared_ptr<Packet>> pool;
+    std::vector<Packet> vec;
+    Packet slot;
+    uint64_t calls{0};
+    uint64_t shadowDiffs{0};
 };
 
 Enc::Enc()
@@ -343,30 +486,169 @@ Enc::~Enc()
 }
 void Enc::setDev(uint16_t v)
 {
-    d->enc.setDeviceId(v);
+    d->obj.setDeviceId(v);
+    if (d->shadow)
+        d->shadow->setDeviceId(v);
 }
 void Enc::setStream(uint8_t v)
 {
-    d->enc.setStreamId(v);
+    d->obj.setStreamId(v);
+    if (d->shadow)
+        d->shadow->setStreamId(v);
 }
 void Enc::restart()
 {
-    d->enc.restart();
+    d->obj.restart();
+    if (d->shadow)
+        d->shadow->restart();
 }
 uint16_t Enc::dev() const
 {
-    return d->enc.getDeviceId();
+    return d->obj.getDeviceId();
 }
 uint8_t Enc::stream() const
 {
-    return d->enc.getStreamId();
+    return d->obj.getStreamId();
 }
 uint16_t Enc::counter() const
 {
-    return d->enc.getSequenceCounter();
+    return d->obj.getSequenceCounter();
+}
+void Enc::lifecycle(int how)
+{
+    preCall();
+    lifecycleEvent(d, how,
+                   [](Encoder& e)
+                   {
+                       // a used encoder: other ids, a few frames behind it, the last packet segmented
+                       e.setDeviceId(0xEE01);
+                       e.setStreamId(0xE1);
+                       DataContext c;
+                       c.minBytesPerMessage = 0;
+                       c.maxBytesPerMessage = 64;
+                       Packet a = warmPacket(1, 0x20, 100), b = warmPacket(2, 0x21, 7);
+                       (void) e.encode(a, c);
+                       (void) e.encode(b, c);
+                   });
 }
 
-static Packet buildPacket(const MsgSpec& m)
+
+// ------------------------------------------------------------------ packet lifecycle
+// The packet handed on went through a copy / move / assignment / swap; whatever it was assigned over, and whatever
+// happens to its source afterwards, must not show (a Packet is a value).
+static void dirtyPacket(Packet& pk)
+{
+    pk.setPayload(warmPacket(3, 0x7E, 11).getPayload());
+    pk.setTimestamp(~pk.getTimestamp());
+    pk.setInterfaceId(~pk.getInterfaceId());
+    pk.setVendorId(static_cast<uint16_t>(~pk.getVendorId()));
+    pk.setCommonFlags(static_cast<uint8_t>(~pk.getCommonFlags()));
+    pk.setVersion(static_cast<uint8_t>(~pk.getVersion()));
+}
+
+static Packet lifePacket(Packet pk, unsigned how)
+{
+    switch (how)
+    {
+        case 1:
+        {
+            Packet c(pk);
+            dirtyPacket(pk);
+            return c;
+        }
+        case 2:
+        {
+            Packet c = warmPacket(2, 0x21, 33);
+            c = pk;
+            dirtyPacket(pk);
+            return c;
+        }
+        case 3:
+        {
+            Packet c(std::move(pk));
+            return c;
+        }
+        case 4:
+        {
+            Packet c = warmPacket(1, 0x20, 5);
+            c = std::move(pk);
+            return c;
+        }
+        case 5:
+        {
+            Packet c = warmPacket(1, 0x01, 40);
+            swap(c, pk);
+            return c;
+        }
+        case 6:
+        {
+            Packet& a = pk;
+            Packet* volatile b = &pk;
+            a = *b;
+            return pk;
+        }
+        case 7:
+        case 8:
+        case 9:
+        case 10:
+        case 11:
+        {
+            // assigned over a near twin: equal in everything but one aspect. Only for non-empty payloads: for empty ones
+            // Packet::operator== ignores the payload type and operator= skips "equal" sources, which is the business of
+            // the value-semantics property (C14, see DESIGN.md section 14), not of the properties checked through here.
+            if (pk.getPayloadLength() == 0)
+                return pk;
+            Packet c(pk);
+            const Payload& pl = pk.getPayload();
+            Bytes b(pl.getRawPayload(), pl.getRawPayload() + pl.getLength());
+            if (how == 7 && !b.empty())
+            {
+                b.back() ^= 1;
+                c.setPayload(Payload(pl.getType(), b.data(), b.size()));
+            }
+            else if (how == 8)
+                c.setPayload(Payload(PayloadType(pl.getMessageType(), static_cast<uint8_t>(pl.getRawPayloadType() ^ 0x40)), b.data(), b.size()));
+            else if (how == 9)
+                c.setPayload(Payload(PayloadType(static_cast<CmpHeader::MessageType>((static_cast<uint8_t>(pl.getMessageType()) % 3) + 1), pl.getRawPayloadType()), b.data(), b.size()));
+            else if (how == 10)
+                c.setCommonFlags(static_cast<uint8_t>(c.getCommonFlags() ^ 0x02));
+            else
+                c.setVendorId(static_cast<uint16_t>(c.getVendorId() ^ 0x100));
+            c = pk;
+            dirtyPacket(pk);
+            return c;
+        }
+        case 15:
+        {
+            // a moved-from packet used again after setPayload only: its header fields are whatever a moved-from packet
+            // holds - unspecified, but they are a function of the program, not of stale memory (only generated where
+            // no oracle expects particular header values: C20)
+            Packet c(std::move(pk));
+            pk.setPayload(c.getPayload());
+            return pk;
+        }
+        case 14:
+        {
+            // read - (modify) - write back: the packet's own payload object is the argument of setPayload
+            Payload& own = pk.getPayload();
+            own.setRawPayloadType(own.getRawPayloadType());
+            pk.setPayload(own);
+            return pk;
+        }
+        default:
+            return pk;
+    }
+}
+
+static Packet buildPacket(const MsgSpec& m);
+static thread_local bool g_movedFromReuse = false;
+static unsigned lifeOf(const MsgSpec& m)
+{
+    // about half of the packets take the plain path
+    return static_cast<unsigned>((m.junk >> 12) % 24);
+}
+
+static Packet buildPacketPlain(const MsgSpec& m)
 {
     const auto mt = static_cast<CmpHeader::MessageType>(m.mtype);
     Packet pk;
@@ -424,7 +706,19 @@ static Packet buildPacket(const MsgSpec& m)
             pk.setPayload(Payload(PayloadType(mt, m.ptype), m.payload, m.len));
         }
         pk.setTimestamp(m.ts);
-        pk.setCommonFlags(m.flags);
+        if (m.junk & 1)
+            pk.setCommonFlags(m.flags);
+        else
+        {
+            // the same value through the per-flag setters, starting from the opposite of every bit
+            using CF = MessageHeader::CommonFlags;
+            static const CF one[] = {CF::recalc, CF::insync, CF::diOnIf, CF::overflow, CF::errorInPayload};
+            pk.setCommonFlags(static_cast<uint8_t>(~m.flags));
+            for (CF f : one)
+                pk.setCommonFlag(f, (m.flags & static_cast<uint8_t>(f)) != 0);
+            for (uint8_t bit : {uint8_t(0x04), uint8_t(0x08), uint8_t(0x80)})
+                pk.setCommonFlag(static_cast<CF>(bit), (m.flags & bit) != 0);
+        }
     }
     // ids: the one that applies gets the logical value, the other one junk the encoder must not emit
     const uint32_t junkId = static_cast<uint32_t>(m.junk >> 32) | 1u;
@@ -461,7 +755,318 @@ PacketRef makePacket(const MsgSpec& m, uint16_t dev, uint8_t stream)
     return std::static_pointer_cast<void>(p);
 }
 
+// the packet's payload is completed through the mutable reference Packet::getPayload() hands out, i.e. it changes
+// AFTER setPayload (type corrected, or data grown with the typed class's setData)
+static bool buildThroughReference(const MsgSpec& m, unsigned how, Packet& outPk)
+{
+    const auto mt = static_cast<CmpHeader::MessageType>(m.mtype);
+    const wire::Kind kind = wire::kindOf(m.mtype, m.ptype);
+    Packet pk = buildPacketPlain(m);
+    if (how == 12)
+    {
+        // generic payload born with another type, corrected afterwards
+        pk.setPayload(Payload(PayloadType(static_cast<CmpHeader::MessageType>((m.mtype % 3) + 1), static_cast<uint8_t>(m.ptype ^ 0x55)), m.payload, m.len));
+        if (m.junk & 2)
+            pk.getPayload().setType(PayloadType(mt, m.ptype));
+        else
+        {
+            pk.getPayload().setMessageType(mt);
+            pk.getPayload().setRawPayloadType(m.ptype);
+        }
+    }
+    else
+    {
+        // typed payload born with half of its data, grown with setData
+        size_t fixed = 0;
+        switch (kind)
+        {
+            case wire::K_CAN:
+            case wire::K_CANFD:
+                fixed = wire::CAN_FIXED;
+                break;
+            case wire::K_LIN:
+                fixed = wire::LIN_FIXED;
+                break;
+            case wire::K_ETH:
+                fixed = wire::ETH_FIXED;
+                break;
+            case wire::K_ANALOG:
+                fixed = wire::ANALOG_FIXED;
+                break;
+            default:
+                return false;
+        }
+        if (m.len < fixed + 2)
+            return false;
+        const size_t dl = m.len - fixed, half = dl / 2;
+        if ((kind == wire::K_CAN || kind == wire::K_CANFD || kind == wire::K_LIN) && dl > 255)
+            return false;
+        Bytes b(m.payload, m.payload + fixed + half);
+        if (kind == wire::K_CAN || kind == wire::K_CANFD)
+            b[15] = static_cast<uint8_t>(half);
+        else if (kind == wire::K_LIN)
+            b[7] = static_cast<uint8_t>(half);
+        else if (kind == wire::K_ETH)
+            wire::wr16(b.data() + 4, static_cast<uint16_t>(half));
+        switch (kind)
+        {
+            case wire::K_CAN:
+                pk.setPayload(CanPayload(b.data(), b.size()));
+                if (!pk.getPayload().isValid())
+                    return false;
+                static_cast<CanPayload&>(pk.getPayload()).setData(m.payload + fixed, static_cast<uint8_t>(dl));
+                break;
+            case wire::K_CANFD:
+                pk.setPayload(CanFdPayload(b.data(), b.size()));
+                if (!pk.getPayload().isValid())
+                    return false;
+                static_cast<CanFdPayload&>(pk.getPayload()).setData(m.payload + fixed, static_cast<uint8_t>(dl));
+                break;
+            case wire::K_LIN:
+                pk.setPayload(LinPayload(b.data(), b.size()));
+                if (!pk.getPayload().isValid())
+                    return false;
+                static_cast<LinPayload&>(pk.getPayload()).setData(m.payload + fixed, static_cast<uint8_t>(dl));
+                break;
+            case wire::K_ETH:
+                pk.setPayload(EthernetPayload(b.data(), b.size()));
+                if (!pk.getPayload().isValid())
+                    return false;
+                static_cast<EthernetPayload&>(pk.getPayload()).setData(m.payload + fixed, static_cast<uint16_t>(dl));
+                break;
+            default:
+                pk.setPayload(AnalogPayload(b.data(), b.size()));
+                if (!pk.getPayload().isValid())
+                    return false;
+                static_cast<AnalogPayload&>(pk.getPayload()).setData(m.payload + fixed, dl);
+                break;
+        }
+    }
+    // only a packet whose payload now IS the requested one is handed on (what the setters store is C13's business)
+    const Payload& pl = static_cast<const Packet&>(pk).getPayload();
+    if (pl.getLength() != m.len || (m.len && memcmp(pl.getRawPayload(), m.payload, m.len) != 0) || pl.getMessageType() != mt ||
+        pl.getRawPayloadType() != m.ptype)
+        return false;
+    outPk = std::move(pk);
+    return true;
+}
+
+static Packet buildPacket(const MsgSpec& m)
+{
+    const unsigned how = lifeOf(m);
+    if (how == 12 || how == 13)
+    {
+        Packet pk;
+        if (buildThroughReference(m, how, pk))
+            return pk;
+        return buildPacketPlain(m);
+    }
+    if (how == 15 && !g_movedFromReuse)
+        return buildPacketPlain(m);
+    return (how >= 1 && how <= 11) || how == 14 || how == 15 ? lifePacket(buildPacketPlain(m), how) : buildPacketPlain(m);
+}
+
+// one encode call on the encoder and, if there is one, on its forked copy
+template <typename ImplT, typename F>
+static std::vector<Bytes> encodeBoth(ImplT* d, F f)
+{
+    std::vector<Bytes> sv;
+    const bool shadowFirst = d->shadow && (d->calls & 1);
+    if (shadowFirst)
+        sv = f(*d->shadow);
+    std::vector<Bytes> v = f(d->obj);
+    if (d->shadow && !shadowFirst)
+        sv = f(*d->shadow);
+    if (d->shadow && sv != v)
+        ++d->shadowDiffs;
+    return v;
+}
+
 std::vector<Bytes> Enc::encode(const std::vector<MsgSpec>& batch, size_t minBytes, size_t maxBytes, int mode)
+{
+    DataContext ctx;
+    preCall();
+    ctx.minBytesPerMessage = minBytes;
+    ctx.maxBytesPerMessage = maxBytes;
+    if (mode == 2 && batch.size() != 1)
+        mode = 0;
+    ++d->calls;
+    // every other call goes through long-lived packet objects that were encoded before
+    const bool reuse = !batch.empty() && batch.size() <= 64 && (sim::mix64(d->calls * 77 + batch[0].junk) & 1);
+    switch (mode)
+    {
+        case 1:
+        {
+            std::vector<std::shared_ptr<Packet>> v;
+            v.reserve(batch.size());
+            for (size_t i = 0; i < batch.size(); ++i)
+            {
+                if (reuse && i < d->pool.size() && d->pool[i].use_count() == 1)
+                {
+                    if (batch[i].junk & 4)
+                        *d->pool[i] = buildPacket(batch[i]);
+                    else
+                    {
+                        Packet tmp = buildPacket(batch[i]);
+                        *d->pool[i] = tmp;
+                    }
+                    v.push_back(d->pool[i]);
+                }
+                else
+                    v.push_back(std::make_shared<Packet>(buildPacket(batch[i])));
+            }
+            if (reuse)
+                d->pool = v;
+            return encodeBoth(d, [&](Encoder& e) { return e.encode(v.begin(), v.end(), ctx); });
+        }
+        case 2:
+        {
+            if (reuse)
+            {
+                if (batch[0].junk & 4)
+                    d->slot = buildPacket(batch[0]);
+                else
+                {
+                    Packet tmp = buildPacket(batch[0]);
+                    if (batch[0].junk & 8)
+                        d->slot = tmp;
+                    else
+                        swap(d->slot, tmp);
+                }
+                return encodeBoth(d, [&](Encoder& e) { return e.encode(d->slot, ctx); });
+            }
+            Packet p = buildPacket(batch[0]);
+            return encodeBoth(d, [&](Encoder& e) { return e.encode(p, ctx); });
+        }
+        case 3:
+        {
+            std::list<Packet> v;
+            for (auto& m : batch)
+                v.push_back(buildPacket(m));
+            return encodeBoth(d, [&](Encoder& e) { return e.encode(v.begin(), v.end(), ctx); });
+        }
+        default:
+        {
+            if (reuse)
+            {
+                // assigned element-wise over what the vector held in the previous call
+                std::vector<Packet>& v = d->vec;
+                if (v.size() > batch.size())
+                    v.resize(batch.size());
+                for (size_t i = 0; i < batch.size(); ++i)
+                {
+                    if (i < v.size())
+                        v[i] = buildPacket(batch[i]);
+                    else
+                        v.push_back(buildPacket(batch[i]));
+                }
+                return encodeBoth(d, [&](Encoder& e) { return e.encode(v.begin(), v.end(), ctx); });
+            }
+            std::vector<Packet> v;
+            v.reserve(batch.size());
+            for (auto& m : batch)
+                v.push_back(buildPacket(m));
+            return encodeBoth(d, [&](Encoder& e) { return e.encode(v.begin(), v.end(), ctx); });
+        }
+    }
+}
+
+// An encode call that is aborted by an exception out of the caller's own iterator (a generator-style range whose
+// source fails): the encoder is used again afterwards.
+namespace
+{
+struct SimAbort
+{
+};
+struct ThrowingIt
+{
+    using iterator_category = std::forward_iterator_tag;
+    using value_type = Packet;
+    using difference_type = std::ptrdiff_t;
+    using pointer = const Packet*;
+    using reference = const Packet&;
+    const std::vector<Packet>* v{nullptr};
+    size_t i{0};
+    size_t throwAt{0};
+    int where{0};  // 0 on dereference, 1 on increment
+    reference operator*() const
+    {
+        if (where == 0 && i == throwAt)
+            throw SimAbort{};
+        return (*v)[i];
+    }
+    pointer operator->() const
+    {
+        return &**this;
+    }
+    ThrowingIt& operator++()
+    {
+        if (where == 1 && i == throwAt)
+            throw SimAbort{};
+        ++i;
+        return *this;
+    }
+    ThrowingIt operator++(int)
+    {
+        ThrowingIt t = *this;
+        ++*this;
+        return t;
+    }
+    bool operator==(const ThrowingIt& o) const
+    {
+        return i == o.i;
+    }
+    bool operator!=(const ThrowingIt& o) const
+    {
+        return i != o.i;
+    }
+};
+}  // namespace
+
+bool Enc::encodeAborted(const std::vector<MsgSpec>& batch, size_t minBytes, size_t maxBytes, size_t throwAt, int where)
+{
+    DataContext ctx;
+    preCall();
+    ctx.minBytesPerMessage = minBytes;
+    ctx.maxBytesPerMessage = maxBytes;
+    std::vector<Packet> v;
+    v.reserve(batch.size());
+    for (auto& m : batch)
+        v.push_back(buildPacketPlain(m));
+    if (v.empty())
+        return false;
+    throwAt %= v.size();
+    ThrowingIt b{&v, 0, throwAt, where}, e{&v, v.size(), throwAt, where};
+    bool thrown = false;
+    for (Encoder* enc : {&d->obj, d->shadow.get()})
+    {
+        if (!enc)
+            continue;
+        try
+        {
+            (void) enc->encode(b, e, ctx);
+        }
+        catch (const SimAbort&)
+        {
+            thrown = true;
+        }
+    }
+    return thrown;
+}
+
+std::unique_ptr<Enc> Enc::clone() const
+{
+    auto c = std::make_unique<Enc>();
+    delete c->d;
+    c->d = new Impl(d->obj);
+    return c;
+}
+uint64_t Enc::shadowDiverged() const
+{
+    return d->shadowDiffs;
+}
+
+std::vector<Bytes> Enc::encodeRefs(const std::vector<PacketRef>& batch, size_t minBytes, size_t maxBytes, int mode)
 {
     DataContext ctx;
     preCall();
@@ -473,39 +1078,74 @@ std::vector<Bytes> Enc::encode(const std::vector<MsgSpec>& batch, size_t minByte
     {
         case 1:
         {
+            // the very objects the decoder returned
             std::vector<std::shared_ptr<Packet>> v;
-            v.reserve(batch.size());
-            for (auto& m : batch)
-                v.push_back(std::make_shared<Packet>(buildPacket(m)));
-            return d->enc.encode(v.begin(), v.end(), ctx);
+            for (auto& r : batch)
+                v.push_back(std::static_pointer_cast<Packet>(r));
+            return d->obj.encode(v.begin(), v.end(), ctx);
         }
         case 2:
-        {
-            Packet p = buildPacket(batch[0]);
-            return d->enc.encode(p, ctx);
-        }
-        case 3:
-        {
-            std::list<Packet> v;
-            for (auto& m : batch)
-                v.push_back(buildPacket(m));
-            return d->enc.encode(v.begin(), v.end(), ctx);
-        }
+            return d->obj.encode(*static_cast<const Packet*>(batch[0].get()), ctx);
         default:
         {
             std::vector<Packet> v;
             v.reserve(batch.size());
-            for (auto& m : batch)
-                v.push_back(buildPacket(m));
-            return d->enc.encode(v.begin(), v.end(), ctx);
+            for (auto& r : batch)
+                v.push_back(*static_cast<const Packet*>(r.get()));
+            return d->obj.encode(v.begin(), v.end(), ctx);
         }
     }
 }
 
-// ------------------------------------------------------------------ decoder
-struct Dec::Impl
+// process environment the library must not depend on: the global C++ locale (digit grouping, decimal comma)
+namespace
 {
-    Decoder dec;
+struct GroupingPunct : std::numpunct<char>
+{
+    char do_thousands_sep() const override
+    {
+        return ',';
+    }
+    std::string do_grouping() const override
+    {
+        return "\3";
+    }
+    char do_decimal_point() const override
+    {
+        return ',';
+    }
+};
+thread_local bool g_hostileLocale = false;
+struct ScopedLocale
+{
+    std::locale old;
+    bool on;
+    ScopedLocale()
+        : on(g_hostileLocale)
+    {
+        if (on)
+            old = std::locale::global(std::locale(std::locale::classic(), new GroupingPunct));
+    }
+    ~ScopedLocale()
+    {
+        if (on)
+            std::locale::global(old);
+    }
+};
+}  // namespace
+void setMovedFromReuse(bool on)
+{
+    g_movedFromReuse = on;
+}
+void setHostileLocale(bool on)
+{
+    g_hostileLocale = on;
+}
+
+// ------------------------------------------------------------------ decoder
+struct Dec::Impl : Holder<Decoder>
+{
+    using Holder<Decoder>::Holder;
 };
 Dec::Dec()
     : d(new Impl)
@@ -518,12 +1158,84 @@ Dec::~Dec()
 std::vector<PacketRef> Dec::decode(const uint8_t* data, size_t size)
 {
     preCall();
-    auto v = d->dec.decode(data, size);
+    ScopedLocale loc;
+    std::vector<std::shared_ptr<Packet>> sv;
+    const bool shadowFirst = d->shadow && (calls & 1);
+    if (shadowFirst)
+        sv = d->shadow->decode(data, size);
+    const uint64_t e0 = sim::edgeCount();
+    auto v = d->obj.decode(data, size);
+    lastEdges = sim::edgeCount() - e0;
+    if (d->shadow && !shadowFirst)
+        sv = d->shadow->decode(data, size);
+    if (d->shadow)
+    {
+        bool same = sv.size() == v.size();
+        for (size_t i = 0; same && i < v.size(); ++i)
+            same = (!v[i] && !sv[i]) || (v[i] && sv[i] && digest(std::static_pointer_cast<void>(v[i])) == digest(std::static_pointer_cast<void>(sv[i])));
+        if (!same)
+            ++shadowDiffs;
+    }
     std::vector<PacketRef> out;
     out.reserve(v.size());
-    for (auto& p : v)
-        out.push_back(std::static_pointer_cast<void>(p));
+    ++calls;
+    for (size_t i = 0; i < v.size(); ++i)
+    {
+        auto& p = v[i];
+        const unsigned how = lifeSeed && p ? static_cast<unsigned>(sim::mix64(lifeSeed + calls * 131 + i) % 24) : 0;
+        if (((how >= 1 && how <= 11) || how == 14) && !payloadIsNull(*p))
+            out.push_back(std::static_pointer_cast<void>(std::make_shared<Packet>(lifePacket(*p, how))));
+        else
+            out.push_back(std::static_pointer_cast<void>(p));
+    }
     return out;
+}
+void Dec::setPacketLife(uint64_t seed)
+{
+    lifeSeed = seed;
+}
+std::unique_ptr<Dec> Dec::clone() const
+{
+    auto c = std::make_unique<Dec>();
+    delete c->d;
+    c->d = new Impl(d->obj);
+    return c;
+}
+uint64_t Dec::lastCallEdges() const
+{
+    return lastEdges;
+}
+uint64_t Dec::shadowDiverged() const
+{
+    return shadowDiffs;
+}
+void Dec::lifecycle(int how)
+{
+    preCall();
+    lifecycleEvent(d, how,
+                   [](Decoder& x)
+                   {
+                       // a used decoder: two reassemblies in flight on endpoints nobody else uses
+                       for (uint16_t dev : {uint16_t(0xEE01), uint16_t(0xEE02)})
+                       {
+                           Bytes f(wire::CMP_HDR + wire::MSG_HDR + 40, 0x33);
+                           wire::CmpHdr ch;
+                           ch.version = 1;
+                           ch.dev = dev;
+                           ch.mtype = 1;
+                           ch.stream = 0xE1;
+                           ch.ctr = 7;
+                           wire::writeCmpHdr(f.data(), ch);
+                           wire::MsgHdr mh;
+                           mh.ts = 5;
+                           mh.id32 = 9;
+                           mh.flags = 0x04;  // first segment
+                           mh.ptype = 0x20;
+                           mh.plen = 40;
+                           wire::writeMsgHdr(f.data() + wire::CMP_HDR, mh);
+                           (void) x.decode(f.data(), f.size());
+                       }
+                   });
 }
 bool Dec::hasPendingHook()
 {
@@ -537,7 +1249,7 @@ std::vector<Pending> Dec::pending() const
 {
     std::vector<Pending> out;
 #ifdef ASAM_CMP_LIB_VERIF
-    for (auto& e : d->dec.verifPending())
+    for (auto& e : d->obj.verifPending())
         out.push_back({e.deviceId, e.streamId, e.bytes});
     std::sort(out.begin(), out.end());
 #endif
@@ -546,6 +1258,7 @@ std::vector<Pending> Dec::pending() const
 std::vector<PacketRef> Dec::tecmpDecode(const uint8_t* data, size_t size)
 {
     preCall();
+    ScopedLocale loc;
     auto v = TECMP::Decoder::Decode(data, size);
     std::vector<PacketRef> out;
     for (auto& p : v)
@@ -554,9 +1267,9 @@ std::vector<PacketRef> Dec::tecmpDecode(const uint8_t* data, size_t size)
 }
 
 // ------------------------------------------------------------------ status
-struct Stat::Impl
+struct Stat::Impl : Holder<Status>
 {
-    Status st;
+    using Holder<Status>::Holder;
 };
 Stat::Stat()
     : d(new Impl)
@@ -569,61 +1282,119 @@ Stat::~Stat()
 void Stat::update(const PacketRef& p)
 {
     preCall();
-    d->st.update(*static_cast<const Packet*>(p.get()));
+    d->obj.update(*static_cast<const Packet*>(p.get()));
+    if (d->shadow)
+        d->shadow->update(*static_cast<const Packet*>(p.get()));
+}
+void Stat::lifecycle(int how)
+{
+    preCall();
+    lifecycleEvent(d, how,
+                   [](Status& x)
+                   {
+                       // a used tracker: one device nobody else uses, with one interface
+                       Bytes cm = sim::makePayload(wire::K_CMSTAT, 60, 0xEE01), ifs = sim::makePayload(wire::K_IFSTAT, 50, 0xEE02);
+                       Packet a, b;
+                       a.setPayload(CaptureModulePayload(cm.data(), cm.size()));
+                       a.setDeviceId(0xEE01);
+                       b.setPayload(InterfacePayload(ifs.data(), ifs.size()));
+                       b.setDeviceId(0xEE01);
+                       x.update(a);
+                       x.update(b);
+                   });
 }
 void Stat::clear()
 {
-    d->st.clear();
+    d->obj.clear();
+    if (d->shadow)
+        d->shadow->clear();
 }
 void Stat::removeDev(uint16_t dev)
 {
-    d->st.removeDeviceById(dev);
+    d->obj.removeDeviceById(dev);
+    if (d->shadow)
+        d->shadow->removeDeviceById(dev);
 }
 bool Stat::removeIf(uint16_t dev, uint32_t ifid)
 {
-    auto idx = d->st.getIndexByDeviceId(dev);
-    if (idx >= d->st.getDeviceStatusCount())
+    auto idx = d->obj.getIndexByDeviceId(dev);
+    if (idx >= d->obj.getDeviceStatusCount())
         return false;
-    d->st.getDeviceStatus(idx).removeInterfaceById(ifid);
+    d->obj.getDeviceStatus(idx).removeInterfaceById(ifid);
+    if (d->shadow)
+    {
+        auto sidx = d->shadow->getIndexByDeviceId(dev);
+        if (sidx < d->shadow->getDeviceStatusCount())
+            d->shadow->getDeviceStatus(sidx).removeInterfaceById(ifid);
+    }
     return true;
+}
+std::unique_ptr<Stat> Stat::clone() const
+{
+    auto c = std::make_unique<Stat>();
+    delete c->d;
+    c->d = new Impl(d->obj);
+    return c;
+}
+uint64_t Stat::digestAll() const
+{
+    // everything the tracker holds, through untyped getters only (stored payload objects may be shorter than their class's header)
+    uint64_t h = 0x57A7;
+    const Status& cs = d->obj;
+    const size_t nd = cs.getDeviceStatusCount();
+    h = sim::hashU64(nd, h);
+    for (size_t i = 0; i < nd; ++i)
+    {
+        const DeviceStatus& ds = cs.getDeviceStatus(i);
+        h = sim::hashU64(digestObs(observePacket(ds.getPacket(), false)), h);
+        const size_t ni = ds.getInterfaceStatusCount();
+        h = sim::hashU64(ni, h);
+        for (size_t j = 0; j < ni; ++j)
+        {
+            const InterfaceStatus& is = ds.getInterfaceStatus(j);
+            h = sim::hashU64(is.getInterfaceId(), h);
+            h = sim::hashU64(digestObs(observePacket(is.getPacket(), false)), h);
+        }
+    }
+    return h;
 }
 size_t Stat::devCount() const
 {
-    return d->st.getDeviceStatusCount();
+    return d->obj.getDeviceStatusCount();
 }
 size_t Stat::idxDev(uint16_t dev) const
 {
-    return d->st.getIndexByDeviceId(dev);
+    return d->obj.getIndexByDeviceId(dev);
 }
 Obs Stat::devPacket(size_t i, bool viaConst) const
 {
     if (viaConst)
     {
-        const Status& cs = d->st;
+        const Status& cs = d->obj;
         return observePacket(cs.getDeviceStatus(i).getPacket(), true);
     }
-    return observePacket(d->st.getDeviceStatus(i).getPacket(), true);
+    return observePacket(d->obj.getDeviceStatus(i).getPacket(), true);
 }
 size_t Stat::ifCount(size_t i) const
 {
-    return d->st.getDeviceStatus(i).getInterfaceStatusCount();
+    return d->obj.getDeviceStatus(i).getInterfaceStatusCount();
 }
 size_t Stat::idxIf(size_t i, uint32_t ifid) const
 {
-    return d->st.getDeviceStatus(i).getIndexByInterfaceId(ifid);
+    return d->obj.getDeviceStatus(i).getIndexByInterfaceId(ifid);
 }
 uint32_t Stat::ifId(size_t i, size_t j) const
 {
-    return d->st.getDeviceStatus(i).getInterfaceStatus(j).getInterfaceId();
+    return d->obj.getDeviceStatus(i).getInterfaceStatus(j).getInterfaceId();
 }
 Obs Stat::ifPacket(size_t i, size_t j, bool viaConst) const
 {
     if (viaConst)
     {
-        const Status& cs = d->st;
+        const Status& cs = d->obj;
         return observePacket(cs.getDeviceStatus(i).getInterfaceStatus(j).getPacket(), true);
     }
-    return observePacket(d->st.getDeviceStatus(i).getInterfaceStatus(j).getPacket(), true);
+    return observePacket(d->obj.getDeviceStatus(i).getInterfaceStatus(j).getPacket(), true);
 }
 
 // ------------------------------------------------------------------ probes (C03)
@@ -678,6 +1449,15 @@ Probe probePacket(uint8_t mtype, const uint8_t* buf, size_t n)
     Packet* p = new Packet(static_cast<CmpHeader::MessageType>(mtype), buf, n);
     Obs o = observePacket(*p, true);
     pr.viewErr = o.viewErr;
+    // ... and the same packet after it was copied / moved / assigned / had its own payload set back: still only in-bounds views
+    const unsigned how = static_cast<unsigned>(sim::mix64(sim::fnv1a(buf, n)) % 24);
+    if (pr.viewErr.empty() && ((how >= 1 && how <= 11) || how == 14) && !payloadIsNull(*p))
+    {
+        Packet* q = new Packet(lifePacket(*p, how));
+        Obs o2 = observePacket(*q, true);
+        pr.viewErr = o2.viewErr;
+        delete q;
+    }
     delete p;
     return pr;
 }
@@ -869,6 +1649,13 @@ void Builder::setData(const BuildData& bd)
     }
 }
 
+void Builder::assignFrom(const Builder& other)
+{
+    preCall();
+    Payload& dst = *d->obj;
+    const Payload& src = *other.d->obj;
+    dst = src;
+}
 Bytes Builder::raw() const
 {
     const uint8_t* r = d->obj->getRawPayload();
